@@ -31,6 +31,7 @@ func init() {
 			{ID: "C04-R5", Title: "run-state reset (sp) on entry only, guarded only by request and first-run", Floor: 2, Run: resetDiscipline},
 			{ID: "C04-R7", Title: "the stack pointer is advanced only after the slot was written (it always indexes the array)", Floor: 1, Run: spStaysInRange},
 			{ID: "C04-R8", Title: "the declared effect of Unpack rests on an exact size test before every pushing loop", Floor: 1, Run: unpackSizeCheckIsExact},
+			{ID: "C04-R9", Title: "host entry points do not push", Floor: 5, Run: hostEntryPointsDoNotPush},
 		},
 	})
 }
